@@ -702,7 +702,10 @@ def r04_18(ctx: Ctx, rule: str = "R04.18") -> None:
         if m is None:
             return None, None
         rs = [r for r in walk(m.node) if isinstance(r, ast.Return)]
-        return m, (rs[0].value if len(rs) == 1 else None)
+        if len(rs) == 1 and len([st for st in m.node.body if not (isinstance(st, ast.Expr) and isinstance(st.value, ast.Constant))]) == 1:
+            return m, rs[0].value
+        # early returns, named sub-conditions: the body as one expression
+        return m, shared.body_as_expr(m.node)
     if any(ctx.prog.method(c, n_) is None for n_ in ("check_crc", "is_finished", "is_exhausted")) or ctx.prog.module("helpers").funcs.get("read_fully") is None:
         ctx.note(f"{rule}: a predicate of SevenZipDecompressor (or helpers.read_fully) does not exist in this tree; the rules that need it report that")
         return
